@@ -524,6 +524,65 @@ def _w_c01(args):
     return out
 
 
+def shared_subterm_programs():
+    """programs in which ONE expression object is used in several constraints / at several places of a constraint (building
+    `t + c` must not change `t`): written out by hand with their meaning; yields None or a failure dict"""
+    load_repo()
+    from cspuz import Solver, count_true
+    import itertools as _it
+
+    def case(name, nb, ni, build, pred):
+        s = Solver()
+        bs = [s.bool_var() for _ in range(nb)]
+        is_ = [s.int_var(0, 3) for _ in range(ni)]
+        for c in build(bs, is_):
+            s.ensure(c)
+        sols = [(bv, iv) for bv in _it.product([False, True], repeat=nb) for iv in _it.product(range(4), repeat=ni) if pred(bv, iv)]
+        try:
+            r = s.find_answer()
+        except Exception as e:
+            return dict(kind="exception:%s" % type(e).__name__, detail="shared-subterm program %s: %s: %s" % (name, type(e).__name__, str(e)[:150]), program=[name])
+        if bool(r) != bool(sols):
+            return dict(kind="sat-mismatch", detail="shared-subterm program %s: solver says %r, %d assignments satisfy the program as written" % (name, r, len(sols)), program=[name])
+        if r:
+            got = (tuple(v.sol for v in bs), tuple(v.sol for v in is_))
+            if got not in sols:
+                return dict(kind="sol-not-a-model", detail="shared-subterm program %s: sol %s is no model of the program as written" % (name, got), program=[name])
+        return None
+
+    def p1(b, i):
+        t = i[0] + i[1]
+        return [t + i[2] == 6, t == 2]
+    yield case("t=a+b; t+c==6; t==2", 0, 3, p1, lambda b, i: i[0] + i[1] + i[2] == 6 and i[0] + i[1] == 2)
+
+    def p2(b, i):
+        n = count_true(b)
+        return [n + i[0] == 3, n == 1]
+    yield case("n=count_true(xs); n+k==3; n==1", 3, 1, p2, lambda b, i: sum(b) + i[0] == 3 and sum(b) == 1)
+
+    def p3(b, i):
+        t = i[0] - i[1]
+        return [t - i[2] == 0, t == 1, (t + 1) + 1 == 3]
+    yield case("t=a-b; t-c==0; t==1; t+1+1==3", 0, 3, p3, lambda b, i: i[0] - i[1] - i[2] == 0 and i[0] - i[1] == 1)
+
+    def p4(b, i):
+        c = b[0] & b[1]
+        return [c | b[2], ~(c & b[2]), c == b[0]]
+    yield case("c=x&y; c|z; ~(c&z); c==x", 3, 0, p4, lambda b, i: ((b[0] and b[1]) or b[2]) and not ((b[0] and b[1]) and b[2]) and ((b[0] and b[1]) == b[0]))
+
+    def p5(b, i):
+        t = i[0] + 1
+        u = t + t
+        return [u == 4, t + i[1] == 3]
+    yield case("t=a+1; u=t+t; u==4; t+b==3", 0, 2, p5, lambda b, i: 2 * (i[0] + 1) == 4 and i[0] + 1 + i[1] == 3)
+
+    def p6(b, i):
+        n = count_true(b[:2])
+        m = n + count_true(b[2:])
+        return [m == 2, n == 0]
+    yield case("n=count(x,y); m=n+count(z,w); m==2; n==0", 4, 0, p6, lambda b, i: sum(b) == 2 and sum(b[:2]) == 0)
+
+
 def large_structured_programs(tier, use_solve=False):
     """yields None (agreement) or a failure dict per program; programs over n = 130 / 257 variables:
        chain   x0, x_i -> x_{i+1}                      exactly one model (all true)            [+ not x_{n-1}: unsatisfiable]
@@ -612,6 +671,15 @@ def run_c01(rep, tier, seed, nproc=16):
     rep.coverage["matrix_programs"] = nm
     # LARGE programs whose meaning is known by construction (a size-dependent branch of Solver or of a back end -- batching
     # constraints, declaring variables in blocks -- never runs on programs small enough for the brute-force oracle)
+    for f in shared_subterm_programs():
+        rep.evaluations += 1
+        if f is not None:
+            sig = "e2e:find_answer:%s:shared-subterm" % f["kind"]
+            if sig not in seen:
+                seen.add(sig)
+                payload = dict(engine="programs", property="C01", **f)
+                rp = write_replay("C01", "find_answer_%s_shared" % f["kind"], payload)
+                rep.violation(sig, f["detail"], rp)
     for f in large_structured_programs(tier):
         rep.evaluations += 1
         if f is not None:
